@@ -66,11 +66,29 @@ def drive(sc):
          "linear": group(*(None, None, None) if ci is None else (ci.linear_lower, ci.linear_upper, ci.linear_violation)),
          "nonlinear": group(*(None, None, None) if ci is None else (ci.nonlinear_lower, ci.nonlinear_upper, ci.nonlinear_violation)),
          "tracked": not sc["tf"], "kept": plan.get(tracker, "results") is not None}
+    trace = [e]
+    if int(sc["tf"]) in (1, 2, 3) and (v[0] + v[1] + sc["tol"]) % 2 == 0:
+        # the other order: THIS configuration is validated with the transform object, then another configuration (other linear
+        # rows) is validated with the same object, then this configuration is evaluated
+        transforms2 = {1: make_transforms([2.0, 0.5], [1.0, -1.0], [2.0], [2.0, 4.0]), 2: make_transforms(var_scales=[2.0, 0.5]),
+                       3: make_transforms(var_offsets=[1.0, -1.0])}[int(sc["tf"])]
+        mine = EnOptConfig.model_validate(cfg, context=transforms2)
+        EnOptConfig.model_validate(other, context=transforms2)
+        seen.clear()
+        plan2 = Plan(ctx)
+        _, outcome2 = outcome_of(lambda: plan2.run_step(plan2.add_step("evaluator"), config=mine, transforms=transforms2))
+        fr2 = next((r for r in seen if isinstance(r, FunctionResults)), None)
+        ci2 = None if fr2 is None else fr2.constraint_info
+        trace.append(dict(e, ev="InfoShared", tracked=False, kept=False,
+                          outcome=outcome2 if fr2 is not None or outcome2 != "ok" else "exc:noresult",
+                          bound=group(*(None, None, None) if ci2 is None else (ci2.bound_lower, ci2.bound_upper, ci2.bound_violation)),
+                          linear=group(*(None, None, None) if ci2 is None else (ci2.linear_lower, ci2.linear_upper, ci2.linear_violation)),
+                          nonlinear=group(*(None, None, None) if ci2 is None else (ci2.nonlinear_lower, ci2.nonlinear_upper, ci2.nonlinear_violation))))
     fin = [abs(b) < INF_Q for b in sc["lb"] + sc["ub"]]
     mixed = any(fin) and not all(fin)
     violated = any((abs(l) < INF_Q and x < l) or (abs(u) < INF_Q and x > u) for x, l, u in zip(v, sc["lb"], sc["ub"]))
     both_inf = any(abs(b) >= INF_Q for b in sc["lb"]) and any(abs(b) >= INF_Q for b in sc["ub"])
-    return [e], {"nontrivial": bool(mixed or violated), "key": str(sc), "both_sides_infinite_entry": both_inf, "tf": bool(sc["tf"])}
+    return trace, {"nontrivial": bool(mixed or violated), "key": str(sc), "both_sides_infinite_entry": both_inf, "tf": bool(sc["tf"])}
 
 
 def model_runs(tier):
